@@ -289,7 +289,50 @@ pub fn run_grad_px(l: &[i128]) -> Vec<i128> {
             if dev < 1e-5 {
                 on_circle = true;
             } else if dev < 1.0 / 4096.0 + 1e-5 {
-                return vec![0, 0, 0, 0, 0, 0, 0, 0, 0, 3];
+                // either reading is defensible for the colours; but a pixel where the gradient is undefined under BOTH readings
+                // (behind the focal point) must still be left untouched
+                let und = |px: f64, py: f64, oc: bool| -> bool {
+                    let gx = isx * px + ikx * py + itx;
+                    let gy = iky * px + isy * py + ity;
+                    let (dx, dy) = (sx1 - sx0, sy1 - sy0);
+                    let (qx, qy) = (gx - sx0, gy - sy0);
+                    let a = dx * dx + dy * dy - r * r;
+                    let bq = qx * dx + qy * dy;
+                    let c = qx * qx + qy * qy;
+                    if oc {
+                        !(bq > 0.0)
+                    } else {
+                        let disc = bq * bq - a * c;
+                        if disc < 0.0 {
+                            return true;
+                        }
+                        let t = if a < 0.0 { (bq - disc.sqrt()) / a } else { (bq + disc.sqrt()) / a };
+                        !(t >= 0.0)
+                    }
+                };
+                let mut touched = 0i128;
+                let mut first = [0i128; 2];
+                for y in 0..h {
+                    for x in 0..w {
+                        let (cx, cy) = (x as f64 + 0.5, y as f64 + 0.5);
+                        let all_undefined = [(0.0, 0.0), (-1.5, -1.5), (1.5, -1.5), (-1.5, 1.5), (1.5, 1.5)]
+                            .iter()
+                            .all(|(ox, oy)| und(cx + ox, cy + oy, true) && und(cx + ox, cy + oy, false));
+                        if !all_undefined {
+                            continue;
+                        }
+                        let got = pm.pixel(x, y).unwrap();
+                        let g = [got.red(), got.green(), got.blue(), got.alpha()];
+                        let want = if blend == 0 { [0u8; 4] } else { bgc };
+                        if g != want {
+                            touched += 1;
+                            if touched == 1 {
+                                first = [x as i128, y as i128];
+                            }
+                        }
+                    }
+                }
+                return vec![0, 0, 0, first[0], first[1], 9, 0, 0, touched, if touched > 0 { 0 } else { 3 }];
             }
         }
     }
